@@ -63,6 +63,13 @@ fn main() {
         mcw::core::start_watchdog(std::env::var("MCW_CASE_WALL_S").ok().and_then(|v| v.parse().ok()).unwrap_or(60));
     }
     let t0 = std::time::Instant::now();
+    if ctx.prop == "NAMES" {
+        // dev helper: the registered instruction names of the tree under test
+        for n in mcw::core::Real::new().names() {
+            println!("{}", n);
+        }
+        return;
+    }
     match ctx.prop.as_str() {
         "C01" => mcw::c01::run(&mut ctx),
         "C02" => mcw::c02::run(&mut ctx),
@@ -87,6 +94,7 @@ fn main() {
             std::process::exit(2);
         }
     }
+    mcw::inventory::check(&mut ctx);
     ctx.extra.push(("worker_wall_s".to_string(), mcw::core::J::Num(t0.elapsed().as_secs_f64())));
     if let Some(f) = ctx.digests.as_mut() {
         let _ = f.flush();
